@@ -128,8 +128,9 @@ def judge_c15(d):
 
 
 PROPS["C15"] = {
-    "lean_modules": ["P2.Props.C15Gen", "P2.Props.C15"],
+    "lean_modules": ["P2.Props.C15Gen", "P2.Props.C15", "P2.Props.C15b"],
     "audit_module": "P2.Audit.C15",
+    "extra_audit_modules": ["P2.Audit.C15b"],
     "harness_prop": "c15",
     "profile": "release",
     "judge": judge_c15,
@@ -137,7 +138,7 @@ PROPS["C15"] = {
         "modelled, not verified: fft.rs / polynomial/*.rs / interpolation.rs / util bit reversal transcribed by hand (P2/Model/Fft.lean, Poly.lean, BitRev.lean); the driver answers with the O(n^2) definition (sizes <= 2^7) and the round-by-round model, schoolbook product and long division (unique q, r)",
         "packed (SIMD) butterflies: same scalar semantics assumed, exercised only through the build's default packing (partial)",
     ],
-    "level_text": "Lean 4: kernel-checked facts on the extracted 6-bit reversal table and index arithmetic (all n_power <= 6 exhaustively, chunked in-place map for lb_n <= 10), executable definitions (DFT by definition, schoolbook product, long division, Lagrange interpolant) against which every fast routine of the real code is compared for all small sizes and sampled larger ones; general theorems (bit reversal for every size, divide_by_linear identity, round invariant) being added",
+    "level_text": "(C15b, polynomial algebra of the model = Mathlib's K[X]: trim/degree normal form, add/sub/mul as polynomial operations (schoolbook product = convolution), divRem IS Euclidean division (quotient and remainder equal a / b and a % b, trimmed; none exactly for a nonzero dividend over the zero divisor; the fuel suffices), coset FFT evaluates on shift*omega^i and cosetIfft inverts it, LDE evaluates the same polynomial on the larger domain and sub-samples to the original values, barycentric weights = Lagrange nodal weights and the barycentric interpolation formula = Lagrange interpolation for distinct nodes, Z_H on a coset is periodic with period 2^rate) Lean 4: kernel-checked facts on the extracted 6-bit reversal table and index arithmetic (all n_power <= 6 exhaustively, chunked in-place map for lb_n <= 10), executable definitions (DFT by definition, schoolbook product, long division, Lagrange interpolant) against which every fast routine of the real code is compared for all small sizes and sampled larger ones; general theorems (bit reversal for every size, divide_by_linear identity, round invariant) being added",
     "level_note": "Trusted: Lean kernel, standard axioms, extract.py, hand-written definitions tied by correspondence. Found and repaired two genuine defects of div_rem on this tree (known_findings.jsonl F-C15-1/2).",
     "assumptions": [],
     "rule": "fft/ifft/coset/lde for every size 2^0..2^10 (thorough 2^13) with every zero_factor, with/without (larger) root tables; bit reversal out of place and in place for element sizes 8B..16KiB on both sides of the chunking thresholds; polynomial operand kinds empty/zero/constant/dense/leading-zeros/sparse incl. sparse divisors; distinct = distinct request lines",
@@ -206,15 +207,16 @@ def judge_c16(d):
 
 
 PROPS["C16"] = {
-    "lean_modules": ["P2.Props.C16a"],
+    "lean_modules": ["P2.Props.C16a", "P2.Props.C16b"],
     "audit_module": "P2.Audit.C16",
+    "extra_audit_modules": ["P2.Audit.C16b"],
     "harness_prop": "c16",
     "profile": "release",
     "judge": judge_c16,
     "trusted_base": KERNEL_TB + [
         "modelled, not verified: hash/path_compression.rs and FriProof::compress transcribed by hand (P2/Model/PathCompression.lean, Compress.lean); FriProof decompression and verify_compressed are exercised on the implementation only (round trip + verdict equivalence oracle), their Lean model is partial",
     ],
-    "level_text": "Lean 4 theorem: Merkle multi-proof compression followed by decompression returns the original proofs for EVERY tree, cap height and index multiset (repeats and shared cosets included), against the actual prove function of the Merkle model; FriProof::compress tied to its Lean model by exact equality of the compressed proof on real proofs with colliding query indices; decompress/verify_compressed checked by the property's own oracle on the implementation (lossless, verdict-equivalent, also on tampered proofs)",
+    "level_text": "(C16b: Lean model of get_inferred_elements and CompressedFriProof::decompress and of the PLONK-level compress / decompress / verify_compressed, tied to the real code by requests decompress / vcompressed / pcompress incl. edited compressed proofs; theorems: first-wins maps — lookup in the compressed map returns the entry of the FIRST query with that index, sorting by key preserves lookups (qsort permutation lemma proved from scratch); acceptance by Fri.verify implies every omitted coset evaluation equals the inferred one (consistent_of_accept); per query round, for all layers incl. repeated indices and shared cosets, re-insertion of the inferred evaluations rebuilds the original evaluation vectors (decompress_query_aligned_partial); compression keeps every transcript part, so the challenges of the compressed proof are those of the original; verify_compressed accepts an accepted proof GIVEN the round trip (verifyCompressed_of_roundtrip) — the closed statement decompress(compress p) = p is NOT proved: the glue over the query list and the Merkle-path part (which needs an honest-tree witness) are missing) Lean 4 theorem: Merkle multi-proof compression followed by decompression returns the original proofs for EVERY tree, cap height and index multiset (repeats and shared cosets included), against the actual prove function of the Merkle model; FriProof::compress tied to its Lean model by exact equality of the compressed proof on real proofs with colliding query indices; decompress/verify_compressed checked by the property's own oracle on the implementation (lossless, verdict-equivalent, also on tampered proofs)",
     "level_note": "Trusted: Lean kernel, standard axioms, hand transcription tied by correspondence; generators force repeated indices and shared cosets (tiny LDE domains, 28-40 queries, arities 1-4, cap heights 0-4, zk on/off).",
     "assumptions": [],
     "rule": "accepted proofs of generated programs under collision-forcing configs; per proof: compress/decompress/verify_compressed oracle, model-vs-real compressed FRI proof, 3 path-roundtrip requests on real Merkle paths with chosen index multisets, 2 tampered variants; distinct = distinct request lines",
